@@ -21,6 +21,8 @@ from .common import HarnessError
 
 BASE = os.path.join(common.OUT, "c18.%d" % os.getpid())
 ERRNOS = ["ENOSPC", "EIO", "EACCES"]
+# calls whose permission-class failures code is tempted to wave through: always refused permission, too
+PERM_CALLS = ("fchmod", "chmod", "fchmodat", "rename", "renameat", "renameat2")
 MODES = ["0644", "0600", "0755", "0444"]
 # system calls that get faults injected (at every occurrence of a clean run)
 INJECTABLE = ["openat", "open", "read", "pread64", "write", "pwrite64", "writev", "close", "fstat", "newfstatat",
@@ -737,6 +739,8 @@ def fault_runs(prefix, label, op, files, args, clean, stdin=None, tier="thorough
     runs = []
     for n, (sysname, k, call, _) in enumerate(clean["an"]["sites"]):
         errs = ERRNOS if tier == "thorough" else [ERRNOS[(common.seed() + n) % len(ERRNOS)]]
+        if sysname in PERM_CALLS:
+            errs = list(dict.fromkeys(errs + ["EACCES"] + (["EPERM"] if tier == "thorough" else [])))
         kinds = [None] if sysname in KILL_ONLY else errs + [None]
         for e in kinds:
             rid = "%s-%s%d-%s" % (prefix, sysname, k, e or "KILL")
